@@ -319,6 +319,44 @@ class SymToken(object):
         raise Concretize("fspath(SymToken)")
 
 
+_LITERALS = {}
+
+
+def literal_code(s):
+    """Reserved (negative) token value standing for the literal string s;
+    derived from the text so that every worker and every re-execution agrees."""
+    import hashlib
+    c = -(1 + int(hashlib.sha1(s.encode("utf8")).hexdigest()[:12], 16))
+    _LITERALS[c] = s
+    return c
+
+
+def token_text(n):
+    """Concrete string of a token value: the literal it coincides with, or a
+    fresh name."""
+    return _LITERALS.get(n, "tok%d" % n)
+
+
+class SymName(SymToken):
+    """Symbolic string that the code under test only moves around and compares
+    for equality -- also with *literal* strings ("nbdime"): x == "lit" is the
+    formula x = code("lit"), so the solver considers both the case that the
+    unknown string is that literal and the case that it is anything else."""
+    __slots__ = ()
+
+    def __eq__(self, o):
+        if isinstance(o, SymToken):
+            return SymBool(self.e == o.e)
+        if isinstance(o, str):
+            return SymBool(self.e == literal_code(o))
+        return False
+
+    def __ne__(self, o):
+        return lnot(self.__eq__(o))
+
+    __hash__ = SymToken.__hash__
+
+
 SYM = (SymBool, SymInt, SymScalar, SymToken)
 
 
@@ -494,7 +532,7 @@ def concretize(obj, model):
     if isinstance(obj, SymBool):
         return z3.is_true(model.eval(obj.e, model_completion=True))
     if isinstance(obj, SymToken):
-        return "tok%d" % model.eval(obj.e, model_completion=True).as_long()
+        return token_text(model.eval(obj.e, model_completion=True).as_long())
     return obj
 
 
